@@ -670,6 +670,7 @@ func run(c *core.Ctx) error {
 		startTLC("three", core.TLCRun{Module: "ZngFault", Cfg: "ZngFault.thorough3.cfg", Workers: 4, Deadlock: true, Coverage: true, Timeout: 30 * time.Minute})
 		startTLC("cancel", core.TLCRun{Module: "ZngFault", Cfg: "ZngFault.thoroughcancel.cfg", Workers: 4, Deadlock: true, Coverage: true, Timeout: 30 * time.Minute})
 	}
+	startTLC("shape", core.TLCRun{Module: "ValueShape", Cfg: "ValueShape.cfg", Keep: []string{"shape.ndjson"}, Workers: 1, Timeout: 30 * time.Minute})
 	startTLC("detect", core.TLCRun{Module: "AnyDetect", Cfg: "AnyDetect.cfg", Keep: []string{"detect.ndjson", "order.json"}, Workers: 2, Deadlock: true, Coverage: true, Timeout: 30 * time.Minute})
 
 	// ---- seeds
@@ -845,11 +846,14 @@ func run(c *core.Ctx) error {
 		}
 		cases = append(cases, Case{Kind: "query", Reader: "query", Consumer: "compile", Class: m.Class, Where: m.Where, Seed: "corpus", Data: m.Data})
 	}
+	for _, m := range typedConstQueries(c.Seed, full) {
+		cases = append(cases, Case{Kind: "query", Reader: "query", Consumer: "compile", Class: m.Class, Where: m.Where, Note: m.Note, Seed: "const-slot", Data: m.Data})
+	}
 	nQuery := len(cases) - nRead - nDetect
 
 	// ---- proto cases need the TLC export
 	tlcWG.Wait()
-	for _, name := range []string{"cases", "live", "detect"} {
+	for _, name := range []string{"cases", "live", "detect", "shape"} {
 		if tlcResults[name] == nil {
 			return nil // MustHold already recorded the reason (inconclusive)
 		}
@@ -862,6 +866,9 @@ func run(c *core.Ctx) error {
 	nruns := 0
 	for name, res := range tlcResults {
 		zc := finalZeroCoverage(res.Out)
+		if name == "shape" {
+			continue
+		}
 		if name == "detect" {
 			if len(zc) > 0 {
 				c.Inconclusive("AnyDetect: actions never taken: %v", zc)
@@ -882,12 +889,24 @@ func run(c *core.Ctx) error {
 		tlcResults["cases"].Distinct, tlcResults["live"].Distinct, tlcResults["detect"].Distinct)
 	var zst int64
 	for name, res := range tlcResults {
-		if name != "detect" {
+		if name != "detect" && name != "shape" {
 			zst += res.Distinct
 		}
 	}
 	c.Set("r1_zngfault_states", zst)
 	c.Set("r1_anydetect_states", tlcResults["detect"].Distinct)
+
+	// ValueShape binding: the (type, body) table against the real Validate, plus read cases
+	shapeRows, err := core.ReadNDJSON[shapeRow](tlcResults["shape"], "shape.ndjson")
+	if err != nil {
+		return err
+	}
+	shapeCases, err := checkShapes(c, shapeRows)
+	if err != nil {
+		return err
+	}
+	cases = append(cases, shapeCases...)
+	c.Set("cases_value_shape", len(shapeCases))
 
 	type caseRow struct {
 		Stream   []string   `json:"stream"`
@@ -1502,10 +1521,23 @@ func corruptTrace(all []tevent, how string) {
 
 func replay(c *core.Ctx) error {
 	var w struct {
-		Case Case `json:"case"`
+		Case Case      `json:"case"`
+		Kind string    `json:"kind"`
+		Type shapeType `json:"type"`
+		Body shapeBody `json:"body"`
+		Why  string    `json:"spec_why"`
+		Cons bool      `json:"spec_consistent"`
 	}
 	sig, err := c.ReplayWitness(&w)
 	if err != nil {
+		return err
+	}
+	if w.Kind == "shape" {
+		// a (type, body) pair of ValueShape.tla: ask the real Validate again
+		_, err := checkShapes(c, []shapeRow{{Type: w.Type, Body: w.Body, Consistent: w.Cons, Why: w.Why}})
+		if err == nil && c.Violations() == 0 {
+			fmt.Printf("replay of %s: no longer fails\n", sig)
+		}
 		return err
 	}
 	res, err := runOne(c, w.Case)
